@@ -3,6 +3,10 @@
 // Contracts for package session, read by /verif/engine (govc). Comment-only.
 package session
 
+// The session properties share one state machine: what one handler does to the state, the
+// counters and the registered hooks is an assumption of every other handler's clause.
+//@ group C05,C06,C07,C08,C09,C10,C14,C15,C16
+
 // ---- ghost state -------------------------------------------------------------------
 // sentN/sentAt: the messages handed to Router.Send successfully, in order.
 // resentN/resentAt: the stored messages handed to Router.SendBatch (retransmissions).
@@ -398,6 +402,8 @@ package session
 // tkN: expiries of the timer the goroutine waits on; fireN: what it did about them.
 //@ ghost tkN int
 //@ ghost fireN int
+// aliveChecked: the session context has been looked at since the timer last expired
+//@ ghost aliveChecked bool
 //@ spec timerWF(t *utils.Timer) bool = t != nil && t.ctx != nil && t.timeout > 0 && t.checkingTimeout > 0 && bgctx(ctxParent(t.ctx)) && ctxOf(t.cancel) == t.ctx
 
 // Every outbound message, of any type, restarts the heartbeat interval.
@@ -418,14 +424,18 @@ package session
 //@   callback pure
 //@   requires sessWF(s) && timerWF(outgoingMsgTimer) && !cancelled(outgoingMsgTimer.ctx)
 //@   requires[C07] timersArmed
-//@   modifies sentN, sentAt, sendFailed, clock, s.counter.*, gOut(s.counter), gIn(s.counter), outgoingMsgTimer.lastUpdate, tkN, fireN, cancelled(*)
+//@   modifies sentN, sentAt, sendFailed, clock, s.counter.*, gOut(s.counter), gIn(s.counter), outgoingMsgTimer.lastUpdate, tkN, fireN, aliveChecked, cancelled(*)
 //@   call TakeTimeout#1:
 //@     assert[C08] @notearly clock >= outgoingMsgTimer.lastUpdate + outgoingMsgTimer.timeout
 //@     assert[C08] @notlate clock <= outgoingMsgTimer.lastUpdate + outgoingMsgTimer.timeout + outgoingMsgTimer.checkingTimeout + 4 * slack
 //@     set tkN = tkN + 1
+//@     set aliveChecked = false
+//@   call select#1:
+//@     set aliveChecked = true
 //@   call sendWithErrorCheck#1:
 //@     assert[C08] @heartbeat mrole(arg1) == 4 && mTestReqID(arg1) == ""
 //@     assert[C08,C10,C20] @ownmessage thisiter(arg1)
+//@     assert[C05,C08] @stillrunning aliveChecked
 //@     set fireN = fireN + 1
 //@   loop 1:
 //@     modifies outgoingMsgTimer.lastUpdate
@@ -439,11 +449,14 @@ package session
 //@   callback pure
 //@   requires sessWF(s) && timerWF(incomingMsgTimer) && !cancelled(incomingMsgTimer.ctx)
 //@   requires[C07] timersArmed
-//@   modifies sentN, sentAt, sendFailed, clock, s.counter.*, gOut(s.counter), gIn(s.counter), incomingMsgTimer.lastUpdate, tkN, fireN, s.state, everLogged, trigN, trigAt, routerStopped, timersStarted, cancelled(*)
+//@   modifies sentN, sentAt, sendFailed, clock, s.counter.*, gOut(s.counter), gIn(s.counter), incomingMsgTimer.lastUpdate, tkN, fireN, aliveChecked, s.state, everLogged, trigN, trigAt, routerStopped, timersStarted, cancelled(*)
 //@   call TakeTimeout#1:
 //@     assert[C09] @notearly clock >= incomingMsgTimer.lastUpdate + incomingMsgTimer.timeout
 //@     assert[C09] @notlate clock <= incomingMsgTimer.lastUpdate + incomingMsgTimer.timeout + incomingMsgTimer.checkingTimeout + 4 * slack
 //@     set tkN = tkN + 1
+//@     set aliveChecked = false
+//@   call select#1:
+//@     set aliveChecked = true
 //@   call changeState#1:
 //@     assert[C09] @disconnect arg1 == Disconnect && arg2 && sel(trigAt, trigN - 1) == utils.EventDisconnect
 //@     set fireN = fireN + 1
@@ -454,6 +467,7 @@ package session
 //@   call sendWithErrorCheck#1:
 //@     assert[C09] @probe mrole(arg1) == 5 && s.state == WaitingTestReqAnswer
 //@     assert[C09,C10,C20] @ownmessage thisiter(arg1)
+//@     assert[C05,C09] @stillrunning aliveChecked
 //@     set fireN = fireN + 1
 //@   loop 1:
 //@     modifies incomingMsgTimer.lastUpdate
